@@ -88,7 +88,7 @@ class Driver:
     """One gateway life (or several sharing a persistence file) under observation."""
 
     def __init__(self, version, flavour, interner, persistence_file=None, raising_cb=False, mqtt=False, no_callback=False, spelling=None,
-                 real_link=False, tcp=False, react_fw=None):
+                 real_link=False, tcp=False, react_fw=None, react_set=None):
         import mysensors
         import mysensors.handler
         import mysensors.task
@@ -115,6 +115,11 @@ class Driver:
         # one of its children is presented (an application scheduling firmware for whatever shows up)
         self.react_fw = tuple(react_fw) if react_fw else None
         self.reacted = None
+        # react_set = [value type, value, ack]: the event callback answers about every second SET report with
+        # gateway.set_child_value(node, child, type, value) for the reporting node and child (an application pushing a command back)
+        self.react_set = list(react_set) if react_set else None
+        self.reacted_set = None
+        self.react_once = None          # the same, armed by a replayed TLC behaviour for the step it names
         self.events = []
         self.ops = []
         self.lines = {}
@@ -277,8 +282,39 @@ class Driver:
             except Exception:  # pylint: disable=broad-except
                 pass            # no reaction took place
             entry[1] = self._seen()     # what the callback leaves behind is what the step must end with
+        if int(msg.type) == 1 and (self.react_once or (self.react_set and self._react_now(msg))):
+            import voluptuous as vol
+            t2, v2, a2 = self.reacting = self.react_once or self.react_set
+            try:
+                if a2:
+                    self.gw.set_child_value(msg.node_id, msg.child_id, t2, v2, ack=a2)
+                else:
+                    self.gw.set_child_value(msg.node_id, msg.child_id, t2, v2)
+                self.reacted_set = "none"
+            except (ValueError, vol.Invalid):
+                self.reacted_set = "refused"
+            except Exception as exc:  # pylint: disable=broad-except
+                self.reacted_set = "raised:" + type(exc).__name__
+            entry[1] = self._seen()
         if self.raising_cb:
             raise RuntimeError("callback raises (harness)")
+
+    @staticmethod
+    def _react_now(msg):
+        """Stateless and deterministic (replays make the same decisions): about half of the reports are answered."""
+        import zlib
+        return zlib.crc32(repr((int(msg.node_id), int(msg.child_id), int(msg.sub_type), str(msg.payload))).encode("utf-8", "replace")) % 2 == 0
+
+    def _rx(self):
+        if self.reacted_set is not None:
+            t2, v2, a2 = self.reacting
+            rx = {"on": True, "kind": "set", "n": 0, "f": [0, 0], "t": t2, "v": describe(str(v2), self.I), "a": a2, "exc": self.reacted_set}
+        else:
+            rx = {"on": self.reacted is not None, "kind": "fw", "n": self.reacted or 0, "f": list(self.react_fw or (0, 0)),
+                  "t": 0, "v": describe("", self.I), "a": 0, "exc": "none"}
+        self.reacted = None
+        self.reacted_set = None
+        return rx
 
     # ------------------------------------------------------------ projection
     def tok(self, x):
@@ -429,8 +465,10 @@ class Driver:
             bad = {"a": ev.get("a", "?"), "unobservable": True, "why": f"{type(exc).__name__}: {exc}"[:200], "out": [], "cb": [],
                    "exc": "none", "raised": False, "alive": self.alive, "hasdisk": False, "haswire": False, "linkup": True, "wire": [],
                    "outp": [], "rawout": [], "st": {"tree": [], "trans": [], "sess": [], "fw": [], "jobs": [], "metric": True, "dirty": True},
-                   "disk": {"file": False, "tree": []}, "rx": {"on": False, "n": 0, "f": [0, 0]}}
+                   "disk": {"file": False, "tree": []}}
             self.reacted = None
+            self.reacted_set = None
+            bad["rx"] = self._rx()
             for k, v in ev.items():
                 bad.setdefault(k, v)
             self.events.append(bad)
@@ -438,8 +476,7 @@ class Driver:
 
     def _emit_event_inner(self, ev, raised, with_disk=False):
         ev["unobservable"] = False
-        ev["rx"] = {"on": self.reacted is not None, "n": self.reacted or 0, "f": list(self.react_fw or (0, 0))}
-        self.reacted = None
+        ev["rx"] = self._rx()
         ev["out"] = [self._cmd(x) for x in self.tr.log]
         ev["rawout"] = list(self.tr.log)
         ev["outp"] = [describe(ref_parse_cmd(x)[2] if isinstance(x, str) else "", self.I) for x in self.tr.log]
@@ -740,16 +777,19 @@ class Driver:
     def trace(self, meta=None):
         return {"cfg": {"ver": self.version, "flavour": self.flavour, "raising_cb": self.raising_cb,
                         "persist": bool(self.pfile), "mqtt": self.mqtt, "no_callback": self.no_callback, "spelling": self.spelling,
-                        "real_link": self.real_link, "tcp": self.tcp, "react_fw": self.react_fw, **(meta or {})}, "ev": self.events, "ops": self.ops}
+                        "real_link": self.real_link, "tcp": self.tcp, "react_fw": self.react_fw, "react_set": self.react_set, **(meta or {})}, "ev": self.events, "ops": self.ops}
 
 
 def replay_ops(cfg, ops, persistence_file=None):
     """Re-execute a recorded history against the current tree; returns the new trace."""
     drv = Driver(cfg["ver"], cfg["flavour"], Interner(), persistence_file=persistence_file,
                  raising_cb=cfg.get("raising_cb", False), mqtt=cfg.get("mqtt", False), no_callback=cfg.get("no_callback", False), spelling=cfg.get("spelling"),
-                 real_link=cfg.get("real_link", False), tcp=cfg.get("tcp", False), react_fw=cfg.get("react_fw"))
+                 real_link=cfg.get("real_link", False), tcp=cfg.get("tcp", False), react_fw=cfg.get("react_fw"), react_set=cfg.get("react_set"))
     for op in ops:
         k = op[0]
+        if k == "react_once":
+            drv.react_once = op[1]          # holds for the next step only
+            continue
         if k == "link":
             drv.link(op[1])
         elif k == "send":
@@ -780,5 +820,6 @@ def replay_ops(cfg, ops, persistence_file=None):
             drv.snapshot(tempfile.gettempdir())
         elif k == "set_child_raw":
             pass
+        drv.react_once = None
     drv.close()
     return drv.trace(cfg)
